@@ -258,7 +258,13 @@ Definition start (f : fs) : state := {| s_fs := f; s_tr := None |}.
 (* ops of one tracker's life: neither Create nor Del *)
 Definition mid_op (o : op) : bool :=
   match o with Create _ _ | Del => false | _ => true end.
-(* the environment writes only to locations real_location has returned so far *)
+(* the STRICT protocol: the environment writes only to locations real_location has returned so
+   far.  The real caller (_run_mapping) does NOT keep to it: while its tracker lives it writes the
+   query-marker cache (mkstemp_clean(dir=tmp_dir): a SIBLING of the tracker's directory), the
+   result-buffer files and the CSV, none of which was handed out (Props/C19.v:
+   ex_real_life_not_strict).  No theorem assumes it any more; it is kept for
+   c19_tracker_inputs_untouched_no_tmp_refuted (even the strict protocol does not protect an
+   input when tmp_dir is None). *)
 Fixpoint writes_ok (s : state) (handed : list path) (ops : list op) : bool :=
   match ops with
   | [] => true
@@ -267,6 +273,9 @@ Fixpoint writes_ok (s : state) (handed : list path) (ops : list op) : bool :=
       (match o with WriteTo q _ => mem q handed | _ => true end)
       && writes_ok s1 (match x with OLoc l => l :: handed | _ => handed end) r
   end.
+(* W: the paths the environment writes (tries to write) during a life *)
+Definition written (ops : list op) : list path :=
+  flat_map (fun o => match o with WriteTo p _ => [p] | _ => [] end) ops.
 Definition writes_to (q : path) (o : op) : bool :=
   match o with WriteTo p _ => path_eqb p q | _ => false end.
 (* the paths an operation names *)
@@ -288,8 +297,15 @@ Definition life (f0 : fs) (tmp : option path) (n0 : Z) (mid : list op) : state :
   fst (run (start f0) (Create tmp n0 :: mid ++ [Del])).
 Definition add_content (f : fs) (p : path) : Z :=
   match look f p with File c => c | _ => empty_content end.
-(* what lies in the tmp_dir parent d beside the tracker's own directory T *)
-Definition stale (d T q : path) : bool := under d q && negb (is_prefix T q).
+(* STALE: what lies at or below an entry that the tmp_dir parent d had BEFORE the life began.
+   `entries f d` = the names a with an entry d ++ [a] in f; `stale_in d E q` = q lies at or below
+   d ++ [a] for a name a in E.  What the run itself makes in d during the life (the tracker's own
+   directory, but also fresh siblings written by the environment: _run_mapping's query-marker
+   cache) is NOT stale. *)
+Definition entries (f : fs) (d : path) : list Z :=
+  flat_map (fun kv => match strip d (fst kv) with Some [a] => [a] | _ => [] end) f.
+Definition stale_in (d : path) (E : list Z) (q : path) : bool :=
+  existsb (fun a => is_prefix (d ++ [a]) q) E.
 (* decidable forms of hypotheses (for the examples) *)
 Definition wfb (f : fs) : bool :=
   forallb (fun kv => match fst kv with
@@ -303,10 +319,23 @@ Definition node_eqb (a b : node) : bool :=
   | File x, File y => x =? y
   | _, _ => false
   end.
-Definition agree_b (d T : path) (f f' : fs) : bool :=
-  forallb (fun kv => stale d T (fst kv) || node_eqb (look f (fst kv)) (look f' (fst kv))) (f ++ f').
-Definition ops_ns_b (d T : path) (mid : list op) : bool :=
-  forallb (fun o => forallb (fun p => negb (stale d T p)) (op_paths o)) mid.
+Definition agree_b (d : path) (E : list Z) (f f' : fs) : bool :=
+  forallb (fun kv => stale_in d E (fst kv) || node_eqb (look f (fst kv)) (look f' (fst kv))) (f ++ f').
+Definition ops_ns_b (d : path) (E : list Z) (mid : list op) : bool :=
+  forallb (fun o => forallb (fun p => negb (stale_in d E p)) (op_paths o)) mid.
+
+(* the hypotheses of the theorems of Props/C19.v about one life with a tmp_dir, as ONE boolean
+   (evaluated by the harness on the life recorded from a real run_mapping, tag 1954):
+   f0 well formed, d a directory, the drawn name new, calls of one life only; the environment
+   writes no file that existed before the life (the inputs; c19_tracker_inputs_untouched asks
+   this only of the path it speaks about); no requested output lies inside the tracker's own
+   directory; the calls name nothing at or below an entry d had before the life
+   (c19_tracker_independent_of_stale). *)
+Definition life_premise (f0 : fs) (d : path) (n0 : Z) (mid : list op) : bool :=
+  wfb f0 && n_is_dir (look f0 d) && n_is_absent (look f0 (d ++ [n0])) && forallb mid_op mid
+  && forallb (fun q => negb (n_is_file (look f0 q))) (written mid)
+  && forallb (fun p => negb (is_prefix (d ++ [n0]) p)) (requested mid)
+  && ops_ns_b d (entries f0 d) mid.
 
 (* ---- wire ---- *)
 Definition sx_opath (x : sx) : option (option path) :=
@@ -424,3 +453,17 @@ Definition run_mkstemp_clean (x : sx) : sx :=
   | _ => sx_bad
   end.
 
+(* tag 1954: the hypotheses of the tracker theorems on a recorded life (fs d n0 mid) ->
+   (life_premise, strict protocol writes_ok, |written|, |requested|) *)
+Definition run_life_premise (x : sx) : sx :=
+  match x with
+  | L [f; d; I n0; ops] =>
+      match sx_list sx_entry f, sx_path d, sx_list sx_top ops with
+      | Some f', Some d', Some mid =>
+          sx_ok (L [of_bool (life_premise f' d' n0 mid);
+                    of_bool (writes_ok (start f') [] (Create (Some d') n0 :: mid));
+                    of_nat (length (written mid)); of_nat (length (requested mid))])
+      | _, _, _ => sx_bad
+      end
+  | _ => sx_bad
+  end.
